@@ -3,6 +3,7 @@
 -/
 import Nice.Model.Gather
 import Nice.Props.C20Tick
+import Nice.Props.C20Relay
 import Nice.Props.C19
 namespace Nice.Props.C20
 open Nice.Gather
